@@ -4,6 +4,7 @@
 package leveldb
 
 import (
+	"errors"
 	"sync"
 
 	"github.com/gauss-project/aurorafs/pkg/shed/driver"
@@ -20,6 +21,10 @@ import (
 type VerifDriver struct {
 	mu     sync.Mutex
 	stores map[string]storage.Storage
+
+	armed, crashed bool
+	armedPath      string
+	left, units    int
 }
 
 func NewVerifDriver() *VerifDriver { return &VerifDriver{stores: map[string]storage.Storage{}} }
@@ -44,12 +49,97 @@ func (d *VerifDriver) Open(path, _ string) (driver.DB, error) {
 	if err != nil {
 		return nil, err
 	}
-	return &LevelDB{m: new(sync.RWMutex), db: db, opts: &opts, path: path}, nil
+	return &verifGated{LevelDB: &LevelDB{m: new(sync.RWMutex), db: db, opts: &opts, path: path}, d: d}, nil
+}
+
+// ---- crash gate (prefix-of-write-log model, per store)
+//
+// A store opened through VerifDriver counts its durability units (single Put,
+// single Delete, whole batch Commit). ArmCrash(path, k) lets the next k units
+// of the store named path through; the unit after that and every later write
+// of ANY store opened through the driver fails with ErrVerifCrashed: the
+// process is considered dead, nothing reaches the storages any more. Disarm
+// ends the episode (the harness then restarts the node on the surviving
+// images). Schema writes done inside Open are not units.
+
+var ErrVerifCrashed = errors.New("verif: process crashed (write after the crash point)")
+
+type verifGated struct {
+	*LevelDB
+	d *VerifDriver
+}
+
+func (d *VerifDriver) ArmCrash(path string, k int) {
+	d.mu.Lock()
+	d.armedPath, d.left, d.armed, d.crashed, d.units = path, k, true, false, 0
+	d.mu.Unlock()
+}
+
+// Disarm returns whether the crash point was reached and how many units of the
+// armed store were seen (applied or refused) since ArmCrash.
+func (d *VerifDriver) Disarm() (crashed bool, units int) {
+	d.mu.Lock()
+	defer d.mu.Unlock()
+	crashed, units = d.crashed, d.units
+	d.armed, d.crashed = false, false
+	return
+}
+
+func (d *VerifDriver) gate(path string) error {
+	d.mu.Lock()
+	defer d.mu.Unlock()
+	if !d.armed {
+		return nil
+	}
+	if d.crashed {
+		return ErrVerifCrashed
+	}
+	if path != d.armedPath {
+		return nil
+	}
+	d.units++
+	if d.left == 0 {
+		d.crashed = true
+		return ErrVerifCrashed
+	}
+	d.left--
+	return nil
+}
+
+func (g *verifGated) Put(key driver.Key, value driver.Value) error {
+	if err := g.d.gate(g.path); err != nil {
+		return err
+	}
+	return g.LevelDB.Put(key, value)
+}
+
+func (g *verifGated) Delete(key driver.Key) error {
+	if err := g.d.gate(g.path); err != nil {
+		return err
+	}
+	return g.LevelDB.Delete(key)
+}
+
+func (g *verifGated) NewBatch() driver.Batching {
+	return &verifGatedBatch{Batching: g.LevelDB.NewBatch(), g: g}
+}
+
+type verifGatedBatch struct {
+	driver.Batching
+	g *verifGated
+}
+
+func (b *verifGatedBatch) Commit() error {
+	if err := b.g.d.gate(b.g.path); err != nil {
+		return err
+	}
+	return b.Batching.Commit()
 }
 
 // Reset forgets all storages (start of a new execution).
 func (d *VerifDriver) Reset() {
 	d.mu.Lock()
 	d.stores = map[string]storage.Storage{}
+	d.armed, d.crashed = false, false
 	d.mu.Unlock()
 }
